@@ -78,7 +78,7 @@ template <class T> static bool lib_op(int op, const LD* a, const LD* b, LD* out)
     case D_MULD: fl(mk9<T>(a) * mk9<T>(b), out); break; case D_FROM_S: fl(Dyad<T>(mk6<T>(a)), out); break;
     case D_ADDEQ: { auto x = mk9<T>(a); x += mk9<T>(b); fl(x, out); } break; case D_SUBEQ: { auto x = mk9<T>(a); x -= mk9<T>(b); fl(x, out); } break;
     case D_MULEQ: { auto x = mk9<T>(a); x *= (T)b[0]; fl(x, out); } break; case D_DIVEQ: { auto x = mk9<T>(a); x /= (T)b[0]; fl(x, out); } break;
-    case D_ASSIGN_S: { Dyad<T> x = Dyad<T>::Zero(); x = mk6<T>(a); fl(x, out); } break;
+    case D_ASSIGN_S: { Dyad<T> x((T)7, (T)-3, (T)5, (T)11, (T)-13, (T)2, (T)17, (T)-19, (T)23); x = mk6<T>(a); fl(x, out); } break;   // the target already holds a value
     default: break;
   }
   return true;
@@ -366,7 +366,7 @@ static Verdict c14_math(const Case& c) {
 }
 template <class T, class T2> static void c16_lib(int shape, int via, const LD* a, LD* out) {
   auto go = [&](auto src, auto dst0) { using D = decltype(dst0); if (via == 0) { D d(src); fl(d, out); } else { D d = dst0; d = src; fl(d, out); } };
-  LD z[9] = {0, 0, 0, 0, 0, 0, 0, 0, 0};
+  LD z[9] = {7, -3, 5, 11, -13, 2, 17, -19, 23};   // the assignment target already holds a value
   if (shape == 2) go(mk2<T>(a), mk2<T2>(z)); else if (shape == 3) go(mk3<T>(a), mk3<T2>(z)); else if (shape == 6) go(mk6<T>(a), mk6<T2>(z)); else go(mk9<T>(a), mk9<T2>(z));
 }
 static Verdict c16_math(const Case& c) {
